@@ -78,8 +78,11 @@ func genFirstPackets(r *spec.Rand, authn string) []firstPacket {
 		policy bool
 	}
 	cids := []cidT{{"cid-ok", "ok", false}, {"", "empty", false}, {strings.Repeat("L", 33), "long", true}, {strings.Repeat("x", 200), "long", true}, {"bad\x01id", "nonprint", true}, {"späce", "nonprint", true}, {strings.Repeat("m", 23), "ok", false}}
-	type credT struct{ user, pass string }
-	creds := []credT{{"", ""}, {"good", "pw"}, {"good", "wrong"}, {"evil", "pw"}, {"good", ""}}
+	type credT struct {
+		user, pass string
+		emptyUser  bool // User Name flag set, zero-length user name (legal in 3.1.1)
+	}
+	creds := []credT{{"", "", false}, {"good", "pw", false}, {"good", "wrong", false}, {"evil", "pw", false}, {"good", "", false}, {"", "", true}}
 	n := 0
 	for _, pr := range protos {
 		for _, ci := range cids {
@@ -93,7 +96,15 @@ func genFirstPackets(r *spec.Rand, authn string) []firstPacket {
 						if will > 0 && n%2 == 0 {
 							continue
 						}
-						p := &rc.Packet{Type: rc.CONNECT, ProtoName: pr.name, Level: pr.level, CleanSession: clean, KeepAlive: 60, ClientID: []byte(ci.id)}
+						// keep-alive 0 and an empty client id make the broker rewrite the decoded CONNECT before it keeps it
+						ka := uint16(60)
+						if n%4 == 1 {
+							ka = 0
+						}
+						p := &rc.Packet{Type: rc.CONNECT, ProtoName: pr.name, Level: pr.level, CleanSession: clean, KeepAlive: ka, ClientID: []byte(ci.id)}
+						if cr.emptyUser {
+							p.HasUser, p.User = true, []byte{}
+						}
 						if cr.user != "" {
 							p.HasUser, p.User = true, []byte(cr.user)
 							if cr.pass != "" {
@@ -103,7 +114,7 @@ func genFirstPackets(r *spec.Rand, authn string) []firstPacket {
 						if will > 0 {
 							p.HasWill, p.WillTopic, p.WillMsg, p.WillQoS = true, []byte("will/c11"), []byte("w"), byte(will-1)
 						}
-						fp := firstPacket{desc: fmt.Sprintf("CONNECT %s/%d cid=%s clean=%v user=%q pass=%q will=%d", pr.name, pr.level, ci.kind, clean, cr.user, cr.pass, will), bytes: rc.Encode(p), cid: ci.id, isClean: clean}
+						fp := firstPacket{desc: fmt.Sprintf("CONNECT %s/%d cid=%s clean=%v user=%q pass=%q will=%d ka=%d userflag=%v", pr.name, pr.level, ci.kind, clean, cr.user, cr.pass, will, ka, cr.emptyUser || cr.user != ""), bytes: rc.Encode(p), cid: ci.id, isClean: clean}
 						var reasons []byte
 						if !pr.ok {
 							reasons = append(reasons, 1)
